@@ -1983,3 +1983,17 @@ Proof.
   intros H. unfold opt_double_text, double_text. rewrite H.
   change (negb (has_sub [46;48;102] [37;46;49;55;103])) with true. rewrite double_fixup_drops_true. reflexivity.
 Qed.
+
+(* ------------------------------------------------------------------ custom serializers: opaque pieces *)
+(* a custom-serializer node prints its piece verbatim, under every flag word and at every level *)
+Theorem piece_is_verbatim fmt17 fl level piece : SerModel.has_byte 0 piece = false ->
+  serialize fmt17 fl level (piece_node piece) = piece.
+Proof. intros H. cbn [piece_node serialize]. apply c_str_clean, H. Qed.
+(* ... also as the only element of an array: the brackets and the layout around it are the container's *)
+Theorem piece_in_array fmt17 fl level piece : SerModel.has_byte 0 piece = false ->
+  serialize fmt17 fl level (JArr [piece_node piece]) =
+  [91] ++ child_prefix fl level ++ piece ++ container_close fl level true 93.
+Proof.
+  intros H. cbn [serialize map join_children child_text piece_node nonempty app].
+  rewrite (c_str_clean _ H), app_nil_r, <- app_assoc. reflexivity.
+Qed.
